@@ -509,6 +509,12 @@ impl<'a> Gen<'a> {
                         T::Named(i, _) => self.env.decls[*i].name().to_string(),
                         _ => unreachable!(),
                     };
+                    // sometimes an anonymous literal (fields in another order) that
+                    // is coerced to the declared record type by its context
+                    let name = if self.p.chance(1, 5) { String::new() } else { name };
+                    if name.is_empty() {
+                        self.kinds.insert("anonymous-literal-as-named-record");
+                    }
                     E::Rec(
                         Some(name),
                         fs.iter().map(|(n, ft)| (n.clone(), self.build(ft, depth.saturating_sub(1)))).collect(),
@@ -1075,8 +1081,8 @@ impl Src<'_> {
                 }
                 let body = parts.join(", ");
                 match name {
-                    Some(n) => format!("{n} {{ {body} }}"),
-                    None => format!("{{ {body} }}"),
+                    Some(n) if !n.is_empty() => format!("{n} {{ {body} }}"),
+                    _ => format!("{{ {body} }}"),
                 }
             }
             E::Enm(c, _, fs) => {
